@@ -199,11 +199,16 @@ class Factory:
             return self.classes["CompositeOperation"][0]([self.make(rnd.choice(pool), depth + 1) for _ in range(rnd.randint(2, 3))])
         return self.make(rnd.choice(pool), depth + 1)
 
+    def num(self, lo, hi, nd):
+        """A number in [lo, hi]: a short decimal, or (30%) one with all its digits - lossy serialization must show."""
+        v = self.rnd.uniform(lo, hi)
+        return v if self.rnd.random() < 0.3 else round(v, nd)
+
     def value(self, owner: str, p, depth):
         rnd = self.rnd
         n = p.name
         if n in ("step_size", "max_value"):
-            return round(rnd.uniform(0.011, 0.9), 4)
+            return self.num(0.011, 0.9, 4)
         if n == "mask":
             d = [rnd.random() < 0.6 for _ in range(3)]
             o = [rnd.random() < 0.5 for _ in range(3)]
@@ -212,7 +217,7 @@ class Factory:
                 m[0, 1] = m[1, 0] = False
             return m
         if n == "dt":
-            return round(rnd.uniform(0.1, 3.0), 3)
+            return self.num(0.1, 3.0, 3) if rnd.random() < 0.8 else self.num(1e-12, 1e-9, 15)
         if n == "max_steps":
             return rnd.randint(2, 9)
         if n in ("apply_constraints", "scale_atoms"):
@@ -220,7 +225,7 @@ class Factory:
         if n == "labels":
             return np.array([rnd.choice([-1, 0, 1, 2, 5, 9]) for _ in range(rnd.randint(1, 6))])
         if n == "bias_towards_insert":
-            return round(rnd.uniform(0.05, 0.45), 3)
+            return self.num(0.05, 0.45, 3)
         if n == "operation":
             if owner == "HamiltonianDisplacementMove":
                 return self.make(rnd.choice(self.by_role("integrator")), depth + 1)
@@ -243,7 +248,7 @@ class Factory:
         if n == "interval":
             return rnd.randint(2, 7)
         if n == "probability":
-            return round(rnd.uniform(0.05, 0.95), 3)
+            return self.num(0.05, 0.95, 3)
         if n == "minimum_count":
             return rnd.randint(1, 3)
         if n == "distribution":
